@@ -871,6 +871,16 @@ func damageArtifact(cur []byte, state string) []byte {
 	}
 	cat := func(parts ...[]byte) []byte { return bytes.Join(parts, nil) }
 	switch state {
+	case "key-first": // the same parts in another order: key material on top, then the hash line, then the certificate
+		if p.Csr != nil && p.Key == nil {
+			keyB = block("CERTIFICATE REQUEST", p.Csr)
+		}
+		return cat(keyB, hashLine, certB)
+	case "key-then-cert-then-hash": // ... or the hash line last
+		if p.Csr != nil && p.Key == nil {
+			keyB = block("CERTIFICATE REQUEST", p.Csr)
+		}
+		return cat(keyB, certB, hashLine)
 	case "garbage":
 		return []byte("this is not a pem file\n")
 	case "hash-not-at-start":
